@@ -295,6 +295,22 @@ fn main() {
         _ => {
             // sampled schedules: more clients, longer programs, hostile requests (C11), larger capacities
             let n = arg_u64("--cases", 300);
+            // fixed hostile programs first, whatever the seed: the request that killed the pinned tree, extreme-but-legal limits used
+            // twice on one key (future TAT + saturated retention), counts that truncate to 0 as u32, i64 extremes
+            let t0: u64 = 1_700_000_000_000_000_000;
+            let nasty: Vec<(i64, i64, i64, i64)> = vec![(i64::MAX, 1, i64::MAX, 1), (10, 1, 2147483647, 1), (2147483647, 1, 9223372036, 1), (5, 4294967296, 1, 1),
+                (5, 1 << 62, 1, 1), (i64::MAX, i64::MAX, i64::MAX, i64::MAX), (2, 1, 9223372037, 2), (1, i64::MAX, 1, 1), (4294967297, 3, 7, 4294967296)];
+            for (b, count, period, q) in nasty {
+                for kind in [StoreKind::Per, StoreKind::Ada, StoreKind::Pro] {
+                    let mk = |dt: u64| Rq { key: 0, b, count, period, q, now_ns: t0 + dt };
+                    let progs = vec![vec![mk(0), mk(1_000_000_000)], vec![mk(500_000_000), Rq { key: 1, b: 2, count: 1, period: 1, q: 1, now_ns: t0 + 2_000_000_000 }]];
+                    let s: Vec<usize> = vec![0, 1, 2, 0, 1, 2, 0, 1, 2];
+                    let o = run_schedule_x(kind, 2, false, &progs, &s);
+                    total += 1;
+                    if !o.ok { bad += 1; }
+                    emit(kind, 2, false, &progs, &s, &o);
+                }
+            }
             for _ in 0..n {
                 let k = rng.range(1, arg_u64("--maxclients", 8) as i64) as usize;
                 let per = rng.range(1, 3) as usize;
